@@ -2,6 +2,7 @@ import ComposeVerif.Model.Dotenv
 import ComposeVerif.Spec.Dotenv
 import ComposeVerif.Lemmas.Dotenv
 import ComposeVerif.Neg.C18
+import ComposeVerif.Gen.Dotenv
 /-!
 # C18 — the env-file parser implements the dotenv grammar and never crashes
 
@@ -12,6 +13,33 @@ compare it with.
 -/
 namespace CV.Dotenv
 open CV CV.Template
+
+/-! ## regenerated facts: the constants and character classes of the source are the modelled ones -/
+
+/-- the regular expressions, the quote / comment characters and the `switch` of `locateKeyName` that the
+    model was written against are the ones in the source now -/
+theorem constants_are_modelled :
+    CV.Gen.dotenv_escapeSeqRegex = "(\\\\(?:[abcfnrtv$\"\\\\]|0\\d{0,3}))" ∧
+    CV.Gen.dotenv_exportRegex = "^export\\s+" ∧
+    CV.Gen.dotenv_charComment = '#'.toNat ∧
+    CV.Gen.dotenv_prefixSingleQuote = '\''.toNat ∧
+    CV.Gen.dotenv_prefixDoubleQuote = '"'.toNat ∧
+    CV.Gen.dotenv_keySwitch = [['='.toNat, ':'.toNat, '\n'.toNat], ['_'.toNat, '.'.toNat, '-'.toNat, '['.toNat, ']'.toNat]] := by
+  decide
+
+set_option maxRecDepth 8192 in
+/-- `parser.go:isSpace` is `isSpaceNB` on the modelled domain -/
+theorem isSpace_runes_are_modelled :
+    ∀ row ∈ CV.Gen.dotenv_unicodeClass, isSpaceNB (Char.ofNat row.1) = CV.Gen.dotenv_isSpaceRunes.contains row.1 := by
+  decide
+
+set_option maxRecDepth 8192 in
+/-- Go's `unicode.IsSpace` / `IsLetter` / `IsNumber` agree with the model's classes on every modelled code point -/
+theorem unicode_classes_are_modelled :
+    ∀ row ∈ CV.Gen.dotenv_unicodeClass,
+      isSpaceU (Char.ofNat row.1) = row.2.1 ∧ isLetterOrNumber (Char.ofNat row.1) = row.2.2 := by
+  decide
+
 
 /-! ## never crashes, always terminates -/
 
